@@ -544,8 +544,10 @@ func replayC20(c *lib.Ctx) error {
 			runRaceChild(c, rb, []concIn{*in.Conc}, "replay")
 			return nil
 		}
-		for _, f := range runConc(*in.Conc) {
-			c.Fail("replay", f.Key, f.What, in)
+		if exe, err := os.Executable(); err == nil {
+			runChild(c, exe, false, []concIn{*in.Conc}, "replay")
+		}
+		for _, f := range c.Res.OracleFailures {
 			fmt.Printf("replay C20: %s: %s\n", f.Key, f.What)
 		}
 		return nil
